@@ -139,6 +139,26 @@ func producers() []func() (produced, error) {
 			return produced{name: fmt.Sprintf("Dialer.Upgrade/trailing%d", trailing), expect: exp, live: func() string { return snapHs(*hp) }, br: br}, err
 		})
 	}
+	// a response that names the same extension twice (in one header value, or on two lines), the
+	// second time with parameters
+	for _, twoLines := range []bool{false, true} {
+		twoLines := twoLines
+		out = append(out, func() (produced, error) {
+			d := ws.Dialer{Extensions: []httphead.Option{httphead.NewOption("foo", nil), httphead.NewOption("bar", nil)}}
+			conn := &hs.LazyConn{}
+			conn.Respond = func(req []byte) []byte {
+				ext := "Sec-WebSocket-Extensions: foo; a=1, bar, foo; level=22; window=333\r\n"
+				if twoLines {
+					ext = "Sec-WebSocket-Extensions: foo; a=1, bar\r\nSec-WebSocket-Extensions: foo; level=22; window=333\r\n"
+				}
+				return []byte("HTTP/1.1 101 Switching Protocols\r\nUpgrade: websocket\r\nConnection: Upgrade\r\nSec-WebSocket-Accept: " + hs.Accept(hs.KeyOf(req)) + "\r\n" + ext + "\r\n")
+			}
+			br, h, err := d.Upgrade(conn, theURL)
+			hp := &h
+			exp := `proto="" ext="foo"{"a"="1";} ext="bar"{} ext="foo"{"level"="22";"window"="333";}`
+			return produced{name: fmt.Sprintf("Dialer.Upgrade/extension-named-twice/two-lines=%v", twoLines), expect: exp, live: func() string { return snapHs(*hp) }, br: br}, err
+		})
+	}
 	// close reason
 	for _, side := range []ws.State{ws.StateServerSide, ws.StateClientSide} {
 		side := side
